@@ -64,6 +64,14 @@ CHECKS = {
    text="Stateless enumeration of all sequences (depth 6 quick / 8 thorough) of set/delete events on two keys and clock advances of I/2 and I handed to the real PStateAggregator on a paused tokio clock: concatenated batches must contain, per key, exactly the handed-in events in order, no key twice in a batch, and every event must be delivered within the interval; plus all sequences of writes/deletes/advances on a live in-process session comparing an aggregated and a plain psubscribe on the same pattern (snapshot first and unbatched, then equal per-key streams).",
    note="Timer-vs-event orders are produced as different step sequences (one stimulus outstanding at a time); delays observed with 10 ms resolution; the connection can always take messages.",
    technique="stateless bounded-exhaustive exploration of the real aggregator on a paused clock (all event/timer sequences up to depth 6-8)"),
+ "C11": dict(cat="model_checking", engine="wbmc-core/graph", ref="DESIGN.md §3 C11",
+   text="Explicit-state search where every transition calls the real code with one pending event: the leader loop's request branch (forward, then apply), follower-connected branch (state export + channel registration), grave-goods/last-will forwarding branches (pumped in the loop's biased order), the follower's initial_sync, process_leader_message (through the real JSON encoding of the sync messages) and process_api_call; histories of client activity on the leader with a follower joining at every position (two followers in thorough) and writes offered to the follower; at every quiescent state the follower's user keys (values, kinds, versions) and its view of the registrations must equal the leader's, and direct writes must be refused with NotLeader without any effect.",
+   note="Component level (no sockets); the follower is a deterministic function of (initial sync, command sequence), so delivery timing is not a separate choice; known deviations are attributed by the keys a recorded cause (session end with registrations, import of CAS entries, pre-join registrations) can affect.",
+   technique="explicit-state model checking over the real leader/follower step functions (one pending event per transition, snapshot de-duplication, differential oracle leader vs follower)"),
+ "C12": dict(cat="model_checking", engine="wbmc-core/graph", ref="DESIGN.md §3 C12",
+   text="Explicit-state search over leader histories x follower join point x persistence ticks x leader-loss point: the follower node's core comes from the real persistence::restore under the configuration the orchestrator's command line produces (Config::new(Some(Args{--follower..})) with only the data directory in the environment), it flushes where run_in_follower_mode flushes, is stopped by the shutdown sequence and restored in --leader mode from the same directory; the promoted core must hold every user key the follower had received, minus the grave goods and plus the last wills of all clients connected to the old leader (including those registered before the join).",
+   note="Component level; JSON persistence; election and process management are C19's subject.",
+   technique="explicit-state model checking over the real leader/follower/restore code (fail-over at every quiescent point of every bounded history)"),
 }
 
 NOT_YET = {}
